@@ -168,8 +168,10 @@ Definition up_new (pinned : bool) (cls : list clause) (nvars fuel : nat) : upres
   | Some (w, implied) => up_new_units pinned cls fuel w (pm_new nvars) implied
   end.
 
-(* A fuel that always suffices (Proofs: up_decide_fuel_enough): every watch entry is examined at
-   most once per assigned variable, and there are at most two entries per clause. *)
+(* The fuel the solver-level functions pass.  Intended bound: every watch entry is examined at
+   most once per assigned variable and there are at most two entries per clause.  Its sufficiency
+   is NOT proved: the theorems are about runs that return (OutOfFuel is excluded by the history
+   predicate), and the correspondence would show OUT_OF_FUEL as a disagreement. *)
 Definition up_fuel (nvars : nat) (cls : list clause) : nat :=
   S ((S nvars) * (4 * length cls + 4)).
 
